@@ -33,7 +33,8 @@ def generate(seed, stratum, tier):
   c0 = [['start', 0], ['start', 1], ['subscribe', 1, 'SD', 'fifo'], ['await_idle']]
   nsrc = rng.randrange(0, 4)
   for slot in range(nsrc):
-    c0.append(['timed', 0, rng.choice(['fifo', 'lifo']), 'T%d' % slot, p * rng.choice([1, 1, 2]), rng.choice([0, 0, 5]), rng.choice([True, False]), slot])
+    # names are shared between sources on purpose; some sources are finite and finish on their own before the stop
+    c0.append(['timed', 0, rng.choice(['fifo', 'lifo']), rng.choice(['TA', 'TA', 'TB']), p * rng.choice([1, 1, 2]), rng.choice([0, 0, 1, 2, 5]), rng.choice([True, False]), slot])
   for _ in range(rng.randrange(0, 4)):
     c0.append([rng.choice(['post_fifo', 'post_lifo']), 0, rng.choice(['SA', 'SB'])])
   if rng.random() < 0.35:
